@@ -2,6 +2,7 @@
 //! Code: mahf::conditions::common::{LessThanN,EveryN,ChangeOf,PartialEqChecker,DeltaEqChecker,OptimumReached,RandomChance}::{init,evaluate,from_params}
 //! Code: mahf::conditions::logical::{And,Or,Not} (+ the & | ! operators), mahf::components::Loop, mahf::state::common::{Iterations,Evaluations,Progress}, mahf::lens::ValueOf
 //! Out: And/Or over 3 operands and nested formulas are thorough-tier (out of 12 GB); the quick tier decides And and Or over 2 operands (with the spurious self-dispatch of And/Or::evaluate capped at one level through --unwindset), Not, and loops with n <= 3; EveryN with n = 0 (division by zero; the statement speaks of multiples of n); RandomChance with p outside [0,1] (Bernoulli::new panics; undocumented precondition)
+//! Reclimit: mahf::state::(registry::)?StateRegistry::<.*>::find(_mut)?::<.*>=2
 //! Assume: one evaluation of each condition from a prepared one-scope state with symbolic observed value and parameters; change-of over symbolic histories of length 3; logical formulas over counting operands with symbolic answers
 use better_any::{Tid, TidAble};
 use derive_more::{Deref, DerefMut};
